@@ -728,6 +728,7 @@ func entry.tryStore#cc
   ensures[instant] (result ==> m.p == i) && (!result ==> m.p == expunged)
   assigns heap
   loop 0 invariant m != nil
+  loop 0 invariant p == m.p
 
 func entry.unexpungeLocked#cc
   property C03, C05, C09
@@ -764,6 +765,7 @@ func entry.delete#cc
   ensures[instant] (ok ==> m.p == nil) && (!ok ==> !elive(m))
   assigns heap
   loop 0 invariant m != nil
+  loop 0 invariant p == m.p
 
 func entry.tryExpungeLocked#cc
   property C03, C05, C09
